@@ -91,6 +91,25 @@ pub enum WalRecord {
         /// Transaction ID at checkpoint.
         tx_id: TxId,
     },
+
+    /// Remove a property from a node.
+    ///
+    /// (Added after the variants above; new variants go at the end so that the
+    /// variant indexes of existing log files stay valid.)
+    RemoveNodeProperty {
+        /// Node ID.
+        id: NodeId,
+        /// Property key.
+        key: String,
+    },
+
+    /// Remove a property from an edge.
+    RemoveEdgeProperty {
+        /// Edge ID.
+        id: EdgeId,
+        /// Property key.
+        key: String,
+    },
 }
 
 #[cfg(test)]
